@@ -25,24 +25,57 @@ class Obj:
         return "Obj(%d)" % self.tag
 
 
-class UserError(Exception):
+class Tagged:
+    """An exception object can be falsy (e.g. one that defines __len__): that must not matter to anybody."""
+
+    def __bool__(self):
+        return not getattr(self, "falsy", False)
+
+
+class UserError(Tagged, Exception):
     pass
 
 
-class UserBaseError(BaseException):
+class UserBaseError(Tagged, BaseException):
     pass
 
 
-class UserKeyboardInterrupt(KeyboardInterrupt):
+class UserKeyboardInterrupt(Tagged, KeyboardInterrupt):
     pass
 
 
-class UserGeneratorExit(GeneratorExit):
+class UserGeneratorExit(Tagged, GeneratorExit):
     pass
 
 
-class UserCancelled(asyncio.CancelledError):
+class UserCancelled(Tagged, asyncio.CancelledError):
     pass
+
+
+class AwaitableInt:
+    """A value that happens to be awaitable (like a Future): stands for the integer k; awaiting it gives another one."""
+
+    def __init__(self, k):
+        self.k = k
+
+    def __await__(self):
+        return self._gen().__await__()
+
+    async def _gen(self):
+        return self.k + 1000
+
+
+class AwaitableTrue:
+    """A truthy condition result that happens to be awaitable; awaiting it gives False."""
+
+    def __bool__(self):
+        return True
+
+    def __await__(self):
+        return self._gen().__await__()
+
+    async def _gen(self):
+        return False
 
 
 EXC_CLASSES = [UserError, UserBaseError, UserKeyboardInterrupt, UserGeneratorExit, UserCancelled]
@@ -53,7 +86,8 @@ class ErrClass0(Exception):
 
 
 class ErrClass1(BaseException):
-    pass
+    def __bool__(self):          # a falsy exception class
+        return False
 
 
 ERR_CLASSES = [ErrClass0, ErrClass1]
@@ -86,6 +120,7 @@ class World:
         self.objs = {}
         self.excs = {}
         self.setup = True       # during set-up every condition holds silently
+        self.is_async = False
         self.instance_tag = 900
 
     # ---- values
@@ -109,12 +144,19 @@ class World:
         if tag not in self.excs:
             e = EXC_CLASSES[tag % 8](tag)
             e.tag = tag
+            e.falsy = (tag // 8) % 2 == 1
+            try:                       # it has been raised before: it carries a traceback
+                raise e
+            except BaseException:      # noqa
+                pass
             self.excs[tag] = e
         return self.excs[tag]
 
     def canon(self, v):
         if isinstance(v, Obj):
             return ["o", v.tag]
+        if isinstance(v, AwaitableInt):
+            return ["i", v.k]
         if v is None:
             return ["n"]
         if isinstance(v, bool):
@@ -149,6 +191,8 @@ class World:
 
     def _cond_value(self, r):
         if r[0] == "ret":
+            if r[1] and self.is_async:
+                return AwaitableTrue()
             return bool(r[1])
         if r[0] == "raise":
             raise self.exc(r[1])
@@ -182,7 +226,7 @@ class World:
                 c = ["o", -1]
             return self.store.get(c[1], 0) if c[0] == "o" else -1
         if r[0] == "const":
-            return r[1]
+            return AwaitableInt(r[1]) if self.is_async else r[1]
         if r[0] == "raise":
             raise self.exc(r[1])
         raise ValueError(r)
@@ -225,6 +269,8 @@ class World:
 
     def canon_exc(self, err):
         if hasattr(err, "tag") and type(err) in EXC_CLASSES:
+            if self.excs.get(err.tag) is not err:
+                return ["lib", "CopyOf" + type(err).__name__, None]     # the very object is expected
             return ["obj", err.tag]
         if type(err) is icontract.ViolationError:
             return ["violation", self._cid_of(str(err))]
@@ -242,6 +288,7 @@ class World:
 
     def run(self, thunk, is_async=False):
         self.setup = False
+        self.is_async = is_async
         self.events = []
         try:
             if is_async:
